@@ -2,6 +2,7 @@
 package main
 
 import (
+	"encoding/json"
 	"fmt"
 	"os"
 	"verif/mc/plug"
@@ -21,6 +22,9 @@ func main() {
 	if len(os.Args) >= 4 && os.Args[1] == "dump" {
 		dump(os.Args[2:])
 		return
+	}
+	if len(os.Args) >= 3 && os.Args[1] == "replay" {
+		os.Exit(replay(os.Args[2]))
 	}
 	if len(os.Args) < 4 || os.Args[1] != "check" {
 		fmt.Fprintln(os.Stderr, "usage: vcheck check <ID> <quick|thorough>")
@@ -47,4 +51,57 @@ func main() {
 		os.Exit(2)
 	}
 	os.Exit(run.Finish())
+}
+
+// replay re-executes the check a violation record came from on the current tree and reports whether the same
+// violation (same cell, same symptom) occurs again: exit 1 with the VIOLATION line if it does, exit 0 if not.
+// No evidence file is written.
+func replay(path string) int {
+	b, err := os.ReadFile(path)
+	if err != nil {
+		fmt.Fprintln(os.Stderr, "check error:", err)
+		return 2
+	}
+	var v report.Violation
+	if err := json.Unmarshal(b, &v); err != nil || v.Property == "" || v.Cell == "" {
+		fmt.Fprintln(os.Stderr, "check error: not a violation record:", path)
+		return 2
+	}
+	fn, ok := checks.Registry[v.Property]
+	if !ok {
+		fmt.Fprintln(os.Stderr, "unknown property", v.Property)
+		return 2
+	}
+	tier := os.Getenv("VERIF_TIER")
+	if tier == "" {
+		tier = "quick"
+	}
+	for _, t := range []string{tier, "thorough"} {
+		ctx, err := checks.NewCtx(t)
+		if err != nil {
+			fmt.Fprintln(os.Stderr, "check error:", err)
+			return 2
+		}
+		run := report.New(v.Property, t)
+		if err := fn(ctx, run); err != nil {
+			fmt.Fprintln(os.Stderr, "check error:", err)
+			return 2
+		}
+		if f := plug.Fault.Load(); f != nil {
+			fmt.Fprintln(os.Stderr, "check error: a plugin could not be run at all:", f)
+			return 2
+		}
+		for _, w := range run.Violations {
+			if w.Cell == v.Cell && w.Symptom == v.Symptom {
+				fmt.Printf("REPRODUCED tier=%s cell=%s symptom=%s detail=%s\n", t, w.Cell, w.Symptom, w.Detail)
+				fmt.Printf("VIOLATION property=%s replay=%s\n", v.Property, path)
+				return 1
+			}
+		}
+		if t == "thorough" {
+			break
+		}
+	}
+	fmt.Printf("NOT-REPRODUCED property=%s cell=%s symptom=%s (the current tree does not show this violation)\n", v.Property, v.Cell, v.Symptom)
+	return 0
 }
